@@ -190,7 +190,36 @@ with variant_depth (var : variant) : nat :=
   | VStruct fs => S (S (fold_right (fun ft acc => Nat.max (ty_depth (snd ft)) acc) 0 fs))
   end.
 
-(* ---- what is asked of the text in the value (Rust `String`s, `&'static str` names are UTF-8; `bytes` are not) ---- *)
+(* ---- what is asked of the text in the value: Rust `String`s / `&str`s / `&'static str` names are UTF-8, the `bytes`
+        of the universe (Spec/SerdeData.v) are arbitrary.  Only names that can be written matter: field and variant
+        names (the names of the types themselves are never written). ---- *)
+Fixpoint utf8_ty (t : ty) : bool :=
+  match t with
+  | TOpt t' | TSeq t' | TNewtype _ t' => utf8_ty t'
+  | TTuple ts | TTupleStruct _ ts => forallb utf8_ty ts
+  | TMap k v => utf8_ty k && utf8_ty v
+  | TStruct _ fs => forallb (fun ft => utf8_valid_b (fst ft) && utf8_ty (snd ft)) fs
+  | TEnum _ vs => forallb (fun nv => utf8_valid_b (fst nv) && utf8_variant (snd nv)) vs
+  | _ => true
+  end
+with utf8_variant (var : variant) : bool :=
+  match var with
+  | VUnit => true
+  | VNewtype t => utf8_ty t
+  | VTuple ts => forallb utf8_ty ts
+  | VStruct fs => forallb (fun ft => utf8_valid_b (fst ft) && utf8_ty (snd ft)) fs
+  end.
+
+Fixpoint utf8_sv (v : sval) : bool :=
+  match v with
+  | SStr s => utf8_valid_b s
+  | SSome v' | SNewtype v' | SVariant _ v' => utf8_sv v'
+  | SSeq vs | SRec vs => forallb utf8_sv vs
+  | SMap es => forallb (fun kv => utf8_sv (fst kv) && utf8_sv (snd kv)) es
+  | _ => true
+  end.
+
+(* the same on a value tree *)
 Fixpoint utf8_tv (x : tomlval) : bool :=
   match x with
   | VStr s => utf8_valid_b s
